@@ -42,6 +42,12 @@ macro_rules! props {
                 _ => None,
             }
         }
+        pub fn dispatch_decode(id: &str, artifact: &Path, out: &Path, sig: &str, msg: &str) -> Option<i32> {
+            match id {
+                $($id => Some(crate::fuzzing::decode_to_replay::<$ty>(artifact, out, sig, msg)),)*
+                _ => None,
+            }
+        }
         pub const ALL: &[&str] = &[$($id),*];
     };
 }
